@@ -47,7 +47,7 @@ META = {
     'design_ref': '§5 C12, §4 M8',
     'level_text': 'Machine-checked: the model of TaskControl._process_filter/_filter_tasks selects exactly what the '
                   'declarative relation Resolves prescribes (names, targets -> producer, `*` patterns -> all matching '
-                  'names in definition order, options after a task name consumed by its parser, sub-task of a delayed '
+                  'names in definition order (the matcher is all of fnmatch: glob_spec_full), options after a task name consumed by its parser, sub-task of a delayed '
                   'task; a task named again is selected again and parses nothing), and errs iff the '
                   'arguments do not resolve; --single empties the task_dep of every named task (of the sub-tasks for a '
                   'group) and keeps all named tasks; no argument => default_tasks else all tasks in definition order; '
@@ -60,7 +60,7 @@ META = {
     'level_note': 'filter_spec is at full strength since /repo dcfe778 (F-C12b); the behaviour before that fix and '
                   'before 07d690a is kept as reinit_counterexample / pinned_single_counterexample. The order clause is a theorem about the dispatcher itself (order_full / order_run_model, on the run model M1): in every reachable state of every serial run whose edges are edges of the static graph (Represents), a selected task overtakes an earlier selected task a only if it is reachable - transitively, over task_dep, calc_dep, calc results and setup-tasks of tasks that run - from a task selected no later than a; order (for start orders satisfying the chunk abstraction chunkedB) is kept, but chunkedB itself is not an invariant of the run model (chunk_not_invariant: a failing dependency under --continue) and is only compared on the observed runs. Closure '
                   'completeness is unconditional (closure_closed: ts.length expansion rounds reach the fixed point); the '
-                  'certificate closedB is still evaluated by the driver on every case. fnmatch is modelled for `*`, `?` and literals only; getopt for short clusters and '
+                  'certificate closedB is still evaluated by the driver on every case. fnmatch is modelled completely (`*`, `?`, bracket classes as CPython 3.12 fnmatch.translate reads them; glob_spec_full) and compared directly with fnmatch.fnmatchcase and TaskControl._get_wild_tasks; getopt for short clusters and '
                   'exact long names; delayed tasks only at the TaskControl tier; regex targets not modelled.',
     'rule': 'task sets of 1-5 creators (plain tasks, groups with 1-3 sub-tasks, targets some of which are spelled like '
             'task names, names sharing prefixes, literal names made of glob metacharacters `[` `]` `?` (also in task_dep), '
@@ -83,7 +83,7 @@ META = {
                     '--single on a group whose own task_dep lists more than its sub-tasks: every entry is treated like a '
                     'sub-task (kept, its task_dep dropped) as the code does; the property text does not decide this case',
                     'no target_regex / --auto-delayed-regex'],
-    'trusted': ['fnmatch outside `*`/`?`/literals and getopt abbreviations: not exercised',
+    'trusted': ['getopt abbreviations: not exercised; fnmatch: POSIX only (os.path.normcase is the identity), the interpreter\'s fnmatch.translate is the one of CPython 3.12',
                 'the translation of a generated task set into model tasks (sellib.model_tasks) is checked against the '
                 'real loader only through the compared observables'],
     'models': ['M8', 'M4', 'M1'],
@@ -248,6 +248,10 @@ def classify(case, m, st):
             import fnmatch
             k = len([n for n in names if fnmatch.fnmatchcase(n, a)])
             st.count('arg:pattern-matching-%s' % (k if k < 3 else '3+'))
+            if '[' in a:
+                st.count('arg:bracket-pattern-matching-%s' % (k if k < 3 else '3+'))
+        elif '[' in a and a not in names and a not in targets:
+            st.count('arg:bracket-word-without-star(literal, not a pattern)')
         elif a in groups:
             st.count('arg:group')
         elif a in names:
@@ -273,6 +277,11 @@ def classify(case, m, st):
                 st.count('attr:' + key)
         if any('*' in x for x in d.get('task_dep', [])):
             st.count('attr:wild_dep')
+        for x in d.get('task_dep', []):
+            if '*' in x and '[' in x:
+                import fnmatch
+                k = len([n for n in names if fnmatch.fnmatchcase(n, x)])
+                st.count('attr:wild_dep-with-bracket-matching-%s' % (k if k < 3 else '3+'))
     def form(e):
         if isinstance(e, dict):
             return 'Path'
@@ -489,6 +498,10 @@ SMALL_SETS = [
     # literal names made of glob metacharacters, used in task_dep: only `*` makes a pattern
     ([_t('c[1]'), _t('c1'), _t('c?'), _t('u', task_dep=['c[1]']), _t('v', task_dep=['c?'], setup=['c1'])],
      ['u', 'v', 'c[1]', 'c?', 'c1', 'c*', 'c??*', '*', 'c[2]']),
+    # bracket classes: `c[ab]*` is a pattern (ca, cb - not the task literally named c[ab]); `c[ab]` without `*` is that task
+    ([_t('c[ab]'), _t('ca'), _t('cb', params=['flag']), _t('u', task_dep=['c[ab]*']), _t('v', task_dep=['c[ab]'], setup=['u']),
+      _t('w]', task_dep=['c[!a]*'])],
+     ['u', 'c[ab]', 'c[ab]*', 'c[!a-b]*', '*[]]', 'c[b-a!]*', '[*', '[u-w]*', 'c[a-]']),
 ]
 
 
@@ -515,6 +528,165 @@ def exhaustive_cases(maxlen, rng, sample=None):
     return out
 
 
+# ----------------------------------------------------------------------------------------------
+# the matcher alone: Sel.glob  ==  fnmatch.fnmatchcase  ==  TaskControl._get_wild_tasks  (wave 5)
+
+FN_SMALL = 'ab-][!*?'
+FN_WIDE = 'abcz19-][!*?\\^ &~|.:_'
+
+
+def fn_feature(pat):
+    """which part of fnmatch.translate a pattern reaches (label for the evidence distribution)"""
+    i = pat.find('[')
+    if i < 0:
+        return 'no-bracket'
+    j = i + 1
+    if pat[j:j + 1] == '!':
+        j += 1
+    if pat[j:j + 1] == ']':
+        j += 1
+    j = pat.find(']', j)
+    if j < 0:
+        return 'unterminated-bracket(literal)'
+    body = pat[i + 1:j]
+    lab = 'class'
+    if body.startswith('!'):
+        lab += '-negated'
+    if body.lstrip('!').startswith(']'):
+        lab += '-]first'
+    if '-' in body:
+        lab += '-hyphen'
+    if '\\' in body:
+        lab += '-backslash'
+    return lab
+
+
+def fn_instance(rng, pat):
+    """a name shaped like the pattern (often matches, often just misses): `*` -> a short string, `?` -> a character,
+    `[` -> a character of the text up to the next `]` or any character, anything else mostly itself"""
+    out = []
+    i = 0
+    while i < len(pat):
+        c = pat[i]
+        i += 1
+        if c == '*':
+            out.append(''.join(rng.choice(FN_WIDE) for _ in range(rng.choice([0, 0, 1, 2]))))
+        elif c == '?':
+            out.append(rng.choice(FN_WIDE))
+        elif c == '[' and rng.random() < 0.8:
+            j = pat.find(']', i + 1)
+            if j < 0:
+                out.append('[')
+            else:
+                body = pat[i:j]
+                r = rng.random()
+                if r < 0.5 and body:
+                    out.append(rng.choice(body))
+                elif r < 0.7 and body:
+                    out.append(chr(min(126, max(32, ord(rng.choice(body)) + rng.choice([-1, 1])))))
+                else:
+                    out.append(rng.choice(FN_WIDE))
+                i = j + 1
+        else:
+            out.append(c if rng.random() < 0.93 else rng.choice(FN_WIDE))
+    return ''.join(out)
+
+
+def fn_pairs(tier, rng, boost):
+    """[(pattern, [names])]: exhaustive over the small alphabet, random over a wider one"""
+    plen, nlen = (4, 3) if tier == 'thorough' else (3, 2)
+    names = [''.join(t) for n in range(0, nlen + 1) for t in itertools.product(FN_SMALL, repeat=n)]
+    out = [(''.join(t), names) for n in range(0, plen + 1) for t in itertools.product(FN_SMALL, repeat=n)]
+    exhaustive = len(out)
+    for _ in range((1500 if tier == 'quick' else 60000) * boost):
+        n = rng.choice([2, 3, 4, 5, 5, 6, 7, 8])
+        pat = ''.join(rng.choice(FN_WIDE if rng.random() < 0.6 else 'ab-]![') for _ in range(n))
+        if rng.random() < 0.7:
+            # force a closed class somewhere
+            k = rng.randrange(len(pat) + 1)
+            body = ''.join(rng.choice('abz19-]!\\^-') for _ in range(rng.choice([1, 2, 3, 3, 4, 5])))
+            if rng.random() < 0.3:
+                body = '!' + body
+            pat = pat[:k] + '[' + body + ']' + pat[k:]
+        ns = [''.join(rng.choice(FN_WIDE) for _ in range(rng.choice([0, 1, 1, 2, 2, 3]))) for _ in range(10)]
+        ns += [fn_instance(rng, pat) for _ in range(14)]
+        out.append((pat, ns))
+    return out, exhaustive
+
+
+def fn_batch(batch):
+    """one worker: the model's glob against fnmatchcase and against doit's own TaskControl._get_wild_tasks"""
+    import fnmatch
+    import warnings
+    common.use_repo()
+    from doit.control import TaskControl
+    from doit.task import Task
+    st = WorkerStats()
+    ans = common.drv_batch([{'model': 'sel', 'op': 'glob', 'pattern': p, 'names': ns} for p, ns in batch])
+    tcs = {}
+    with warnings.catch_warnings():
+        warnings.simplefilter('ignore')
+        for (pat, ns), a in zip(batch, ans):
+            model = a['match']
+            py = [fnmatch.fnmatchcase(n, pat) for n in ns]
+            st.count('fnmatch-direct:patterns')
+            st.count('fnmatch-direct:pairs', len(ns))
+            st.count('fnmatch-direct:pairs-matching', sum(1 for x in py if x))
+            st.count('fnmatch-direct:%s' % fn_feature(pat))
+            if py != model:
+                k = [i for i in range(len(ns)) if py[i] != model[i]][0]
+                st.divergence({'fnmatch': {'pattern': pat, 'name': ns[k], 'fnmatchcase': py[k], 'model_glob': model[k]}},
+                              'correspondence M8: Sel.glob %r %r = %s, fnmatch.fnmatchcase says %s'
+                              % (pat, ns[k], model[k], py[k]))
+                continue
+            # doit's own use of the matcher (names that can be task names: no `=`; the empty name is left out)
+            tn = [n for n in dict.fromkeys(ns) if n and '=' not in n]
+            key = id(ns)
+            if key not in tcs:
+                tcs[key] = (ns, TaskControl([Task(n, None) for n in tn]))
+            got = tcs[key][1]._get_wild_tasks(pat)
+            want = [n for n in tn if model[ns.index(n)]]
+            st.count('fnmatch-direct:_get_wild_tasks-calls')
+            if got != want:
+                st.divergence({'fnmatch': {'pattern': pat, 'names': tn, '_get_wild_tasks': got, 'model_wild': want}},
+                              'correspondence M8: TaskControl._get_wild_tasks(%r) over %s = %s, model Sel.wild %s'
+                              % (pat, tn, got, want))
+    return st
+
+
+def fnmatch_direct(ctx):
+    pairs, exhaustive = fn_pairs(ctx.tier, random.Random(ctx.rng.getrandbits(64)), ctx.boost)
+    ctx.extra['fnmatch_direct'] = {'alphabet': FN_SMALL, 'exhaustive_patterns': exhaustive,
+                                   'max_pattern_len': 4 if ctx.tier == 'thorough' else 3,
+                                   'max_name_len': 3 if ctx.tier == 'thorough' else 2, 'random_patterns': len(pairs) - exhaustive}
+    size = max(50, len(pairs) // (common.NCPU * 4))
+    for st in common.pmap(fn_batch, [pairs[i:i + size] for i in range(0, len(pairs), size)]):
+        st.merge_into(ctx)
+
+
+def replay_fnmatch(f):
+    import fnmatch
+    common.use_repo()
+    from doit.control import TaskControl
+    from doit.task import Task
+    pat = f['pattern']
+    names = f.get('names') or [f['name']]
+    a = common.drv_batch([{'model': 'sel', 'op': 'glob', 'pattern': pat, 'names': names}])[0]['match']
+    py = [fnmatch.fnmatchcase(n, pat) for n in names]
+    tn = [n for n in names if n and '=' not in n]
+    got = TaskControl([Task(n, None) for n in tn])._get_wild_tasks(pat)
+    want = [n for n, m in zip(names, a) if m and n in tn]
+    print('pattern %r  names %s' % (pat, names))
+    print('fnmatch.fnmatchcase          :', py)
+    print('model Sel.glob               :', a)
+    print('TaskControl._get_wild_tasks  :', got)
+    print('model Sel.wild               :', want)
+    ok = py == a and got == want
+    if not ok:
+        print('divergence: the matcher of the implementation and the model differ')
+    return ok
+
+
 def run(ctx):
     rng = ctx.rng
     cases = []
@@ -536,6 +708,12 @@ def run(ctx):
         ctx.extra['exhaustive_small_scope'] = {'task_sets': len(SMALL_SETS), 'alphabet': 9, 'max_argv_len': 2,
                                                'cases': len(ex), 'note': 'length 3 sampled in the quick tier'}
     cases += ex
+    # wave 5: bracket classes in selection words and task_dep wild-cards (own random stream: the cases above are unchanged)
+    brng = random.Random(rng.getrandbits(64))
+    for i in range((260 if ctx.tier == 'quick' else 8000) * ctx.boost):
+        r2 = random.Random(brng.getrandbits(64))
+        cases.append(sellib.bracketize(r2, sellib.gen_case(r2, delayed_ok=False, entry_ok=(i % 8 == 0))))
+    fnmatch_direct(ctx)
     size = max(10, len(cases) // (common.NCPU * 6))
     batches = [cases[i:i + size] for i in range(0, len(cases), size)]
     for st in common.pmap(process_batch, batches):
@@ -544,6 +722,8 @@ def run(ctx):
 
 def replay(ctx, data):
     w = data.get('witness') or {}
+    if w.get('fnmatch'):
+        return replay_fnmatch(w['fnmatch'])
     case = w.get('case')
     if case is None:
         print('nothing to replay (no failing input was found): %s' % data.get('note'))
